@@ -43,6 +43,9 @@ def whys(output, pid):
         for mm in re.finditer(r'\[p \|-> "(\w+)", c \|-> "([^"]*)"\]', ch):
             if mm.group(1) in (pid, "MACHINERY"):
                 out.setdefault(k, set()).add(mm.group(1) + ":" + mm.group(2))
+        for mm in re.finditer(r'\[c \|-> "([^"]*)", p \|-> "(\w+)"\]', ch):
+            if mm.group(2) in (pid, "MACHINERY"):
+                out.setdefault(k, set()).add(mm.group(2) + ":" + mm.group(1))
     return out
 
 
